@@ -102,7 +102,17 @@ class Evaluator:
 
     def e_StrLit(self, n, expect):
         if any(c not in "01" for c in n.s):
-            raise Unsupported(f"string literal {n.s!r} with metavalues")
+            if any(c not in "01UXZW-LH" for c in n.s):
+                raise Unsupported(f"string literal {n.s!r}")
+            # metavalues: 'L'/'H' read as 0/1; 'U', 'X', 'Z', 'W', '-' have no two-valued meaning: an ARBITRARY
+            # (but fixed) bit each, like an object without initial value -- only inside executing processes
+            meta = getattr(self.env, "meta_literal", None)
+            if meta is None:
+                raise Unsupported(f"string literal {n.s!r} with metavalues")
+            v = V(TStr(len(n.s)), meta(n.s, getattr(n, "line", 0)), False)
+            if isinstance(expect, TVec):
+                return self.coerce(v, expect, n, "literal")
+            return v
         v = V(TStr(len(n.s)), int(n.s, 2) if n.s else 0, True)
         if isinstance(expect, TVec):
             return self.coerce(v, expect, n, "literal")
